@@ -32,7 +32,7 @@
 (* can generate the allowed behaviours and Trace_Shapes can check recorded *)
 (* ones.                                                                   *)
 (***************************************************************************)
-EXTENDS PurlParse
+EXTENDS PurlDefects
 
 VARIABLES pc,        \* "idle", "open", "end"
           shape,     \* parameters of the shape in use
@@ -44,53 +44,6 @@ VARIABLES pc,        \* "idle", "open", "end"
           out,       \* the outcome the call returned (set by MEnd)
           nConv, nFin
 mvars == <<pc, shape, entry, info, conv, hook, st, parts, out, nConv, nFin>>
-
-NoInfo == [scheme |-> FALSE, typeKnown |-> FALSE, type |-> <<>>, defects |-> {}, clean |-> FALSE, parts |-> NoParts]
-
-(***************************************************************************)
-(* Analysis of an input string by component, with no order among the       *)
-(* components.  `defects` is the set of error classes of all the generic   *)
-(* defects present; it is empty exactly when ParseFront and ParseBack both *)
-(* succeed (InfoMatchesParse, checked by MC_Shapes), and then `parts` is   *)
-(* what they produce.                                                      *)
-(***************************************************************************)
-RECURSIVE QualItemDefects(_, _)
-QualItemDefects(items, seen) ==
-   IF items = <<>> THEN {}
-   ELSE LET it == items[1]  e == FirstIdx(it, EQ) IN
-        IF e = 0 THEN {"InvalidQualifier"} \cup QualItemDefects(Tail(items), seen)
-        ELSE LET k == Take(it, e - 1)  d == Decode(Drop(it, e)) IN
-             (IF ~ValidKey(k) \/ ALowerS(k) \in seen THEN {"InvalidQualifier"} ELSE {})
-             \cup (IF ~d.ok THEN {"InvalidEscape"} ELSE {})
-             \* as in DecQuals, only a key that was given a non-empty value occupies its slot
-             \cup QualItemDefects(Tail(items), IF ValidKey(k) /\ d.ok /\ d.s # <<>> THEN seen \cup {ALowerS(k)} ELSE seen)
-Analyse(s) ==
-  IF ~StartsWith(s, PKG) THEN [NoInfo EXCEPT !.defects = {"UnsupportedUrlScheme"}] ELSE
-  LET s1 == TrimStart(Drop(s, 4), SLASH)
-      ih == LastIdx(s1, HASH)
-      s2 == IF ih = 0 THEN s1 ELSE Take(s1, ih - 1)
-      iq == LastIdx(s2, QM)
-      s3 == IF iq = 0 THEN s2 ELSE Take(s2, iq - 1)
-      it == FirstIdx(s3, SLASH)
-      type == IF it = 0 THEN s3 ELSE Take(s3, it - 1)
-      dSub == IF ih # 0 /\ ~DecodeSubpath(Drop(s1, ih)).ok THEN {"InvalidEscape"} ELSE {}
-      dQ == IF iq = 0 THEN {} ELSE QualItemDefects(Split(Drop(s2, iq), AMP), {})
-      dType == (IF s3 = <<>> THEN {"MissingType", "MissingName"} ELSE {})
-               \cup (IF s3 # <<>> /\ it = 0 THEN {"MissingName"} ELSE {})
-               \cup (IF s3 # <<>> /\ ~ValidType(type) THEN {"InvalidPackageType"} ELSE {})
-      bk == IF it = 0 THEN [ok |-> TRUE] ELSE ParseBack([rest |-> Drop(s3, it), q |-> <<>>, sub |-> <<>>])
-      dBack == IF bk.ok THEN {} ELSE {bk.err}
-      f == ParseFront(s)
-      all == dSub \cup dQ \cup dType \cup dBack
-  IN [scheme |-> TRUE, typeKnown |-> (type # <<>> /\ ValidType(type)), type |-> type, defects |-> all, clean |-> all = {},
-      parts |-> IF all = {} /\ f.ok THEN ParseBack(f).parts ELSE NoParts]
-\* design-level: the order-free analysis agrees with the transcribed parser on what is clean, and contains its error
-InfoMatchesParse(s) ==
-  LET a == Analyse(s)  f == ParseFront(s) IN
-  /\ a.clean <=> (f.ok /\ ParseBack(f).ok)
-  /\ (~f.ok => f.err \in a.defects)
-  /\ ((f.ok /\ ~ParseBack(f).ok) => ParseBack(f).err \in a.defects)
-  /\ (f.ok => (a.typeKnown /\ a.type = f.type))
 
 MInit == /\ pc = "idle" /\ shape = [kind |-> "test", conv |-> TRUE, fin |-> TRUE, edits |-> <<>>]
          /\ entry = "none" /\ info = NoInfo /\ conv = "none" /\ hook = "none" /\ st = <<>> /\ parts = NoParts
